@@ -118,7 +118,8 @@ var malformedOutputs = []string{`{"body":{}}`, `[]`, `"x"`, `{"header":1}`, `{"h
 	`{"header":{},"body":null}`, `{"Header":{}}`, `{"header":null}`, `{"HEADER":{},"Body":{}}`, `{"header":{},"body":[]}`, `{"header":"x"}`, `null`, `{}`,
 	`{"header":{},"body":"s"}`, `{"header":{},"body":1.5}`, `{"header":{},"body":false}`, `{"header":null,"body":{}}`}
 var goodOutputs = []string{goodOutput, `{"header":{}}`, `{"header":{"a":1},"body":{"b":[1,2]},"extra":true}`, `{"header":{},"body":{"x":"not-an-integer"}}`, `{"header":{},"body":{"x":1}}`, `{"header":{},"body":{"y":[]}}`,
-	`{"header":{},"body":{"n":1e400}}`, `{"header":{"k":` + strings.Repeat("9", 400) + `},"body":{}}`, `{"header":{},"body":{"f":-0.000000000000000000000000000000000001e-400}}`}
+	`{"header":{},"body":{"n":1e400}}`, `{"header":{"k":` + strings.Repeat("9", 400) + `},"body":{}}`, `{"header":{},"body":{"f":-0.000000000000000000000000000000000001e-400}}`,
+	`{"header":{},"body":{"blob":"` + strings.Repeat("b", 5000) + `"}}`} // the last one is longer than the default tx_size_limit parameter, which limits nothing here
 
 func pick(rng *rand.Rand, n int) int { return rng.Intn(n) }
 
@@ -139,6 +140,11 @@ func RandParams(rng *rand.Rand) types.Params {
 	durs := []time.Duration{1, 5 * time.Second, 10 * time.Second, 15 * time.Second, time.Hour}
 	p.ComplaintRetrospect = durs[pick(rng, len(durs))]
 	p.ArbitrationTimeLimit = durs[pick(rng, len(durs))]
+	if rng.Intn(12) == 0 {
+		// each period fits a duration, their sum does not
+		p.ComplaintRetrospect, p.ArbitrationTimeLimit = 200*365*24*time.Hour, 200*365*24*time.Hour
+	}
+	p.TxSizeLimit = []uint64{4000, 4000, 16, 1, 100000}[pick(rng, 5)]
 	return p
 }
 
@@ -151,8 +157,10 @@ func RandPricing(rng *rand.Rand, base string) string {
 	fmt.Fprintf(&sb, `{"price":"%s%s"`, base, denom)
 	if rng.Intn(12) == 0 {
 		// an open-ended promotion (years 0001 .. 9999), possibly with a volume tier
-		fmt.Fprintf(&sb, `,"promotions_by_time":[{"start_time":"%s","end_time":"9999-12-31T23:59:59Z","discount":"%s"}]}`,
-			[]string{"0001-01-01T00:00:00Z", "2030-01-01T00:00:10Z", "2262-04-11T23:47:16Z"}[rng.Intn(3)], discounts[pick(rng, len(discounts))])
+		// (with a zone offset the same calendar fields denote an instant outside 0001 .. 9999)
+		fmt.Fprintf(&sb, `,"promotions_by_time":[{"start_time":"%s","end_time":"%s","discount":"%s"}]}`,
+			[]string{"0001-01-01T00:00:00Z", "2030-01-01T00:00:10Z", "2262-04-11T23:47:16Z", "0001-01-01T00:00:00+08:00", "0001-01-01T00:00:00-08:00"}[rng.Intn(5)],
+			[]string{"9999-12-31T23:59:59Z", "9999-12-31T23:59:59Z", "9999-12-31T23:59:59-05:00", "9999-12-31T23:59:59+05:00"}[rng.Intn(4)], discounts[pick(rng, len(discounts))])
 		return sb.String()
 	}
 	both := rng.Intn(4) == 0
@@ -932,7 +940,9 @@ var badPricings = []string{
 func (g *Gen) opParams() {
 	np := g.p
 	fresh := RandParams(g.rng)
-	switch g.rng.Intn(4) {
+	switch g.rng.Intn(5) {
+	case 4:
+		np.TxSizeLimit = fresh.TxSizeLimit
 	case 0:
 		np.MaxRequestTimeout = fresh.MaxRequestTimeout
 		if g.rng.Intn(2) == 0 {
